@@ -147,6 +147,7 @@ def run(tier):
                        'pairs differing only by trailing .0 components are not ordered by the property and are skipped']
     frames_leg(ck, rnd, tier)
     descriptor_leg(ck, rnd, tier)
+    db_frames_leg(ck, rnd, tier)
     # CLI leg: shared with C13
     try:
         from checks import c13
@@ -362,3 +363,80 @@ def frames_leg(ck, rnd, tier):
         else:
             ck.cov['traces_validated_against_impl'] += 1
             ck.nontrivial(('joint-frame', tuple((tuple(o), tuple(d)) for o, d in entries)))
+
+
+def db_frames_leg(ck, rnd, tier):
+    """The compatibility range of a peer is folded from the database entries of everything it advertises (Algorithms.get_ssh_timeframe):
+    for lists of real database entries - every pair of entries that share their "appeared in" descriptor but not their "removed in"
+    one, in both orders where one category holds both, plus random lists - the range per product is the numerically newest first
+    release and the numerically oldest removal (TLC, SshVersion frames), whatever the order of the names and however many entries
+    repeat a descriptor."""
+    from ssh_audit.algorithm import Algorithm
+    from ssh_audit.algorithms import Algorithms
+    from ssh_audit.outputbuffer import OutputBuffer
+    from ssh_audit.ssh2_kex import SSH2_Kex
+    from ssh_audit.ssh2_kexdb import SSH2_KexDB
+    from ssh_audit.ssh2_kexparty import SSH2_KexParty
+    db = SSH2_KexDB.get_db()
+    ents = [(cat, n, [v for v in e[0]]) for cat in ('kex', 'key', 'enc', 'mac') for n, e in sorted(db[cat].items()) if not n.endswith('*') and e[0]]
+    lists = []
+    for i, a in enumerate(ents):
+        for b in ents[i + 1:]:
+            if a[2][0] == b[2][0] and a[2][1:] != b[2][1:]:
+                lists.append([a, b])
+                lists.append([b, a])
+    if tier == 'quick' and len(lists) > 1500:
+        lists = rnd.sample(lists, 1500)
+    for _ in range(300 if tier == 'quick' else 3000):
+        lists.append(rnd.sample(ents, rnd.randint(2, 5)))
+
+    def dec(desc):
+        out = {}
+        for v in (desc or '').split(','):
+            prod, ver, cli = Algorithm.get_ssh_version(v)
+            if ver and not cli:
+                out[prod] = ver
+        return out
+
+    def comps(ver):
+        return [int(x) for x in ver.split('.')]
+    cases, index = [], []
+    for li, lst in enumerate(lists):
+        for prod in ('OpenSSH', 'Dropbear SSH'):
+            try:
+                since = [comps(dec(e[2][0])[prod]) for e in lst if prod in dec(e[2][0])]
+                till = [comps(dec(e[2][1])[prod]) for e in lst if len(e[2]) > 1 and prod in dec(e[2][1])]
+            except ValueError:
+                continue        # (a release that is not dotted decimal: not ordered by the property)
+            if not since:
+                continue
+            cases.append({'product': prod, 'since': [{'c': v, 'p': ['none', 0]} for v in since], 'till': [{'c': v, 'p': ['none', 0]} for v in till]})
+            index.append((li, prod))
+    res = tlc.run('SshVersion', 'SPECIFICATION Spec\nCONSTANT Mode = "frames"\nINVARIANT EmitFrames\n', generated={'cases.json': json.dumps(cases)},
+                  env={'VERIF_CASES': 'cases.json'}, workers=1)
+    ck.add_tlc(res)
+    common.require(res.ok, 'SshVersion (frames, database entries): %s' % res.error_text)
+    exp = [p for p in res.prints if isinstance(p, list)]
+    common.require(len(exp) >= 1 and len(exp[0]) == len(cases), 'TLC did not emit the expected compatibility frames (database entries)')
+    dot = lambda v: '.'.join(str(x) for x in v)
+    norm = lambda s_: None if s_ is None else dot(comps(s_))
+    for (li, prod), e in zip(index, exp[0]):
+        ck.evaluated()
+        lst = lists[li]
+        per = {cat: [x[1] for x in lst if x[0] == cat] for cat in ('kex', 'key', 'enc', 'mac')}
+        # (the order inside a category is the order of the list; categories are walked kex, key, enc, mac)
+        party = SSH2_KexParty(per['enc'], per['mac'], ['none'], [])
+        kex = SSH2_Kex(OutputBuffer(), b'\x00' * 16, per['kex'], per['key'], party, party, False, 0)
+        tf = Algorithms(None, kex).get_ssh_timeframe(True)
+        got = (norm(tf.get_from(prod, True)), norm(tf.get_till(prod, True)))
+        want = (dot(e['from']), dot(e['till']) if e['till'] else None)
+        if got != want:
+            shared = len({x[2][0] for x in lst}) < len(lst)
+            ck.violation('compatibility-range database-entries%s' % (' shared-descriptor' if shared else ''),
+                         '%s: the entries %r (versions %r) give the range %r..%r, the numeric order over their releases gives %r..%r'
+                         % (prod, [x[1] for x in lst], [x[2] for x in lst], got[0], got[1], want[0], want[1]),
+                         {'entries': [[x[0], x[1], x[2]] for x in lst], 'product': prod, 'tool': got, 'expected': want})
+        else:
+            ck.cov['traces_validated_against_impl'] += 1
+            ck.nontrivial(('db-frame', prod, tuple(x[1] for x in lst)))
+    ck.notes.append('database entries leg: %d lists of database entries, %d (list, product) ranges replayed into Algorithms.get_ssh_timeframe' % (len(lists), len(cases)))
